@@ -104,4 +104,9 @@ where
         self.factors.refactor().unwrap();
         self.factors.Dinv.is_finite()
     }
+
+    #[cfg(clarabel_verif)]
+    fn verif_reg(&self) -> Option<(bool, f64, f64)> {
+        Some(self.factors.verif_reg())
+    }
 }
